@@ -312,7 +312,7 @@ def _native_select(nat):
 
 
 @bounded("page-trees-through-real-documents", props=["C04"],
-         bound="random page trees of <= 7 nodes with inheritable attributes at random nodes (direct or indirect), repeated kids and cycles; quick 150 trees, thorough 3000")
+         bound="random page trees of <= 7 nodes with inheritable attributes at random nodes (direct or indirect), repeated kids and cycles; quick 150 trees, thorough 40000")
 def _(tier, seed):
     import io, random
     from pyvc.extract import real_module
@@ -321,7 +321,7 @@ def _(tier, seed):
     PDFDocument = real_module("pdfminer.pdfdocument").PDFDocument
     PDFPage = real_module("pdfminer.pdfpage").PDFPage
     rng = random.Random(seed + 4)
-    n_trees = 150 if tier == "quick" else 3000
+    n_trees = 150 if tier == "quick" else 40000
     failures, evals, distinct = [], 0, set()
     for _ in range(n_trees):
         nn = rng.randint(1, 6)
